@@ -2,6 +2,7 @@
 
 import ast
 import json
+from math import isfinite
 import operator as op
 import re
 from dataclasses import dataclass
@@ -515,9 +516,15 @@ def eval_expr(expr: str) -> str:
      Evaluate mathematical expression and calculate the result number then cast it to string
 
     :param expr: Expression string
+    :raises OverflowError: An integer result has more than MAX_EVAL_DIGITS digits, or the result is not finite
+    :raises TypeError: The result is not a real number
     :return: String representation of result number
     """
     number = __eval(ast.parse(expr.replace("\\", "//"), mode="eval").body)
+    if isinstance(number, complex):
+        raise TypeError("Result is a complex number")
+    if isinstance(number, float) and not isfinite(number):
+        raise OverflowError("Result is not a finite number")
     if isinstance(number, int):
         return f"{number:d}"
     if isinstance(number, float):
@@ -539,6 +546,37 @@ def eval_expr(expr: str) -> str:
     return str(number)
 
 
+MAX_EVAL_DIGITS = 4300
+"""Size limit of the integers of eval_expr (Python itself refuses to print an integer with more digits)"""
+
+
+def __bounded(number):
+    """
+     Refuse an integer that is too large to be printed
+
+    :raises OverflowError: More than MAX_EVAL_DIGITS digits
+    """
+    if isinstance(number, int) and abs(number) >= 10**MAX_EVAL_DIGITS:
+        raise OverflowError("Result too large")
+    return number
+
+
+def __pow(left, right):
+    """
+     `left ** right`, without calculating an integer power that is certain to be too large
+
+    :raises OverflowError: More than MAX_EVAL_DIGITS digits
+    """
+    if (
+        isinstance(left, int)
+        and isinstance(right, int)
+        and right > 0
+        and (left.bit_length() - 1) * right > 4 * MAX_EVAL_DIGITS
+    ):
+        raise OverflowError("Result too large")
+    return op.pow(left, right)
+
+
 OPERATORS: dict[type, Callable[..., Any]] = {
     ast.Add: op.add,
     ast.Sub: op.sub,
@@ -546,7 +584,7 @@ OPERATORS: dict[type, Callable[..., Any]] = {
     ast.Div: op.truediv,
     ast.FloorDiv: op.floordiv,
     ast.Mod: op.mod,
-    ast.Pow: op.pow,
+    ast.Pow: __pow,
     ast.USub: op.neg,
     ast.UAdd: op.pos,
 }
@@ -565,7 +603,9 @@ def __eval(node):
     if isinstance(node, (ast.BinOp, ast.UnaryOp)) and type(node.op) not in OPERATORS:
         raise TypeError(node)
     if isinstance(node, ast.BinOp):  # <left> <operator> <right>
-        return OPERATORS[type(node.op)](__eval(node.left), __eval(node.right))
+        return __bounded(
+            OPERATORS[type(node.op)](__eval(node.left), __eval(node.right))
+        )
     if isinstance(node, ast.UnaryOp):  # <operator> <operand> e.g., -1
         return OPERATORS[type(node.op)](__eval(node.operand))
 
@@ -1243,7 +1283,37 @@ def hardcode_parse_calc(
                 display_col_length=False,
             )
 
-    return string[:calc_pos] + eval_expr(expression) + string[index + 13 :]
+    try:
+        result = eval_expr(expression)
+    except (SyntaxError, ValueError, RecursionError):
+        raise JMCValueError(
+            f"Expression cannot be parsed in Hardcode.calc{expression}",
+            token,
+            tokenizer,
+            display_col_length=False,
+        )
+    except TypeError:
+        raise JMCValueError(
+            f"Expression is not arithmetic in Hardcode.calc{expression}",
+            token,
+            tokenizer,
+            display_col_length=False,
+        )
+    except ZeroDivisionError:
+        raise JMCValueError(
+            f"Division by zero in Hardcode.calc{expression}",
+            token,
+            tokenizer,
+            display_col_length=False,
+        )
+    except OverflowError:
+        raise JMCValueError(
+            f"Result is too large in Hardcode.calc{expression}",
+            token,
+            tokenizer,
+            display_col_length=False,
+        )
+    return string[:calc_pos] + result + string[index + 13 :]
 
 
 def is_uuid(source: str) -> bool:
